@@ -8,7 +8,10 @@ _here = os.path.dirname(os.path.abspath(__file__))
 sys.path.insert(0, _here)
 
 # commits in /repo that add build-tag-guarded hooks (MANIFEST.hooks.source_commits)
-HOOK_COMMITS = []
+HOOK_COMMITS = ["350c2fb"]
+
+# properties whose check is finished and reviewed: only these are listed as checks in MANIFEST.json
+READY = ["C05", "C09"]
 
 # properties deliberately not claimed (id -> reason); anything else missing from PROPS is "not built yet"
 NOT_APPLICABLE = {}
